@@ -76,11 +76,24 @@ pub fn check_program(ctx: &Ctx, name: &str, p: &Program, split: bool, use_cli: b
     // (a label names the instruction that follows it; data, or the end of its segment or file, is none)
     let names_instruction = |name: &str| -> bool {
         p.lines.iter().enumerate().filter(|(_, l)| matches!(l, Line::Label(x) if x == name)).any(|(i, _)| {
+            // the segment the label stands in (programs start in .text)
+            let mut in_data = p.lines[..i].iter().rev().find_map(|l| match l {
+                Line::SecData => Some(true),
+                Line::SecText => Some(false),
+                _ => None,
+            }) == Some(true);
             for l in &p.lines[i + 1..] {
                 match l {
                     Line::Ins(_) => return true,
                     Line::Raw(r) if !r.trim().is_empty() && !r.trim_start().starts_with('#') && !r.trim_start().starts_with('.') => return true,
-                    Line::Data(_) | Line::SecData | Line::SecText => return false,
+                    Line::Data(_) => return false,
+                    // (a directive that names the segment the program is already in changes nothing)
+                    Line::SecData if in_data => {}
+                    Line::SecText if !in_data => {}
+                    Line::SecData | Line::SecText => {
+                        in_data = !in_data;
+                        return false;
+                    }
                     _ => {}
                 }
             }
@@ -123,6 +136,18 @@ pub fn check_program(ctx: &Ctx, name: &str, p: &Program, split: bool, use_cli: b
     match &a.cfg {
         Err(e) => {
             acc.count("analysis_failures_judged", 1);
+            if e.code == "cfg:LabelWithoutInstruction" {
+                // the label it names must really name no instruction
+                if let Some(l) = defs.keys().find(|l| e.title.ends_with(&format!(": {l}")) || e.title.contains(&format!(": {l} "))) {
+                    if names_instruction(l) {
+                        acc.violation(
+                            format!("C16|{name}|label-without-instruction|false"),
+                            format!("{name}: the analysis stops with `{}`, but an instruction follows that label in its segment", e.title),
+                            replay.clone(),
+                        );
+                    }
+                }
+            }
             acc.note("failure_kinds", e.code.clone());
             let generic = e.code == "cfg:UnexpectedError" || e.code == "cfg:AssertionError";
             if generic {
